@@ -26,6 +26,9 @@ def build_kernel(workdir):
     import numpy as np
     os.makedirs(workdir, exist_ok=True)
     src = os.path.join(workdir, "shapley_cy.pyx")
+    so_prev = os.path.join(workdir, "shapley_cy" + sysconfig.get_config_var("EXT_SUFFIX"))
+    if os.path.exists(src) and os.path.exists(so_prev) and open(src, "rb").read() == open(PYX, "rb").read():
+        return so_prev          # same source already compiled in this run's scratch directory (subprocess reuse)
     shutil.copyfile(PYX, src)
     c = os.path.join(workdir, "shapley_cy.c")
     r = subprocess.run([sys.executable, "-m", "cython", "-3", src, "-o", c], capture_output=True, text=True)
